@@ -33,7 +33,8 @@ macro_rules! order_independent {
                 let a = hooks::order_vertices_by_strategy(v.to_vec(), $strategy);
                 let b = hooks::order_vertices_by_strategy(w.to_vec(), $strategy);
                 assert!(a.len() == 3 && b.len() == 3);
-                let distinct = c[0] != c[1] && c[0] != c[2] && c[1] != c[2];
+                let ne = |a: [i32; 2], b: [i32; 2]| a[0] != b[0] || a[1] != b[1];
+                let distinct = ne(c[0], c[1]) && ne(c[0], c[2]) && ne(c[1], c[2]);
                 let mut i = 0;
                 while i < 3 {
                     // the coordinate sequence never depends on the input order
@@ -112,7 +113,7 @@ macro_rules! order_independent_cluster {
                 let a = hooks::order_vertices_by_strategy(v.to_vec(), $strategy);
                 let b = hooks::order_vertices_by_strategy(w.to_vec(), $strategy);
                 assert!(a.len() == 3 && b.len() == 3);
-                let distinct = c[0] != c[1];
+                let distinct = c[0][0] != c[1][0] || c[0][1] != c[1][1];
                 let mut i = 0;
                 while i < 3 {
                     assert!(a[i].point().coords()[0] == b[i].point().coords()[0]
